@@ -53,6 +53,14 @@ def check_bits(acc, cls, w, i):
         return
     if avp.is_bit_set(i) == want:
         acc.violation("is-bit-set-wrong", "%s: bit %d not toggled as seen by is_bit_set" % (cls.__name__, i), wit)
+    if (w ^ i) % 5 == 0:
+        # the word replaced through the public `data` attribute: the bit test reads the word the object carries now
+        w2 = (w * 2654435761 + i) & 0xffffffff
+        avp.data = w2.to_bytes(4, "big")
+        acc.counters["bit_data_replaced"] += 1
+        if bool(avp.is_bit_set(i)) != bool((w2 >> i) & 1):
+            acc.violation("is-bit-set-stale-after-data-replaced", "%s(%#x) then data := %08x: is_bit_set(%d) = %r" % (cls.__name__, w, w2, i, avp.is_bit_set(i)), wit)
+        avp.data = new.to_bytes(4, "big")
     d = avp.dump()
     hdr = 12 if d[4] & 0x80 else 8
     if d[hdr:hdr + 4] != new.to_bytes(4, "big"):
@@ -77,7 +85,7 @@ def check_bit_range(acc, cls, w, i):
                           {"kind": "bitrange", "class": cls.__name__, "word": w, "index": i})
 
 
-def check_addr(acc, cls, lit):
+def check_addr(acc, cls, lit, prev=None):
     wit = {"kind": "addr", "class": cls.__name__, "literal": lit}
     ip = ipaddress.ip_address(lit)
     want = R.enc_address(lit)
@@ -102,6 +110,23 @@ def check_addr(acc, cls, lit):
     if not same or v4 != (ip.version == 4) or v6 != (ip.version == 6):
         acc.violation("address-accessor-wrong", "%s(%r): get_ip_address=%r is_ipv4=%r is_ipv6=%r" % (
             cls.__name__, lit, back, v4, v6), wit)
+    if prev is not None:
+        # the object lives on: its data is replaced through the public `data` attribute by the encoding of another address
+        # (and back); the accessors read what the object carries now
+        for nxt in (prev, lit):
+            ip2, want2 = ipaddress.ip_address(nxt), R.enc_address(nxt)
+            acc.counters["addr_data_replaced"] += 1
+            try:
+                avp.data = want2
+                back, v4, v6, d = avp.get_ip_address(), avp.is_ipv4(), avp.is_ipv6(), avp.dump()
+                ok = ipaddress.ip_address(back) == ip2 and v4 == (ip2.version == 4) and v6 == (ip2.version == 6) and avp.data == want2 and want2 in d
+            except BaseException as ex:
+                acc.violation("address-accessor-raises-after-data-replaced", "%s(%r) then data := %s: %r" % (cls.__name__, lit, want2.hex(), ex), wit)
+                return
+            if not ok:
+                acc.violation("address-accessor-stale-after-data-replaced", "%s(%r) then data := encoding of %r: get_ip_address=%r is_ipv4=%r is_ipv6=%r data=%s" % (
+                    cls.__name__, lit, nxt, back, v4, v6, avp.data.hex()), dict(wit, replaced_by=nxt))
+                return
     # the same value given as bytes is carried unchanged and reads back the same
     avp2 = cls(want)
     if avp2.data != want or ipaddress.ip_address(avp2.get_ip_address()) != ip:
@@ -175,10 +200,12 @@ def run_batch(b):
             lits.add(g.address())
         n = 0
         for cname in b["classes"]:
-            for lit in sorted(lits):
+            order = sorted(lits)
+            rng.shuffle(order)
+            for k, lit in enumerate(order):
                 acc.evaluations += 1
                 n += 1
-                check_addr(acc, classes[cname], lit)
+                check_addr(acc, classes[cname], lit, prev=order[k - 1] if k % 2 else None)
             acc.sigs.add(cname)
         acc.extra["distinct_judged"] = n
         acc.sample({"addr": {"class": b["classes"][0], "literals": sorted(lits)[:5]}})
